@@ -2,7 +2,7 @@
 
 Symbolic: subclass relation R, has-method booleans, priorities.
 Enumerated: method sets (arity 1-2 with optional positional, keyword-only parameter, annotations from classes /
-object / Union / Intersection / Exactly / StrictSubclass / HasMethod), bodies that delegate through recurse /
+object / Union / Intersection / Exactly / StrictSubclass / HasMethod, and Dependent types with constant conditions nested in them), bodies that delegate through recurse /
 call_next with the same or differently-typed arguments, call shapes.
 Oracle: closed-form `member` (documented meaning of each annotation) asserted on every logged method entry, for every
 supplied argument; an arity / keyword mismatch shows up as Python's own TypeError when the handler is invoked.
@@ -138,6 +138,11 @@ def gen_shapes(tier, seed):
     K = [["K", i] for i in range(n)]
     terms = K + [["obj"], ["U", K[0], K[1]], ["U", K[1], K[2]], ["I", K[0], K[1]], ["I", K[1], K[2]], ["Ex", K[0]], ["Ex", K[1]],
                  ["SS", K[0]], ["SS", K[1]], ["HM", "hm"], ["U", ["Ex", K[0]], K[2]], ["I", ["HM", "hm"], K[1]]]
+    # value-dependent members (constant conditions: p0/p1 hold on everything, p2 on nothing) next to plain classes inside the combinators:
+    # an argument class may qualify for one arm of a union only, the generated run-time check must still test the plain members
+    DT, DF = ["Dep", ["obj"], 0], ["Dep", ["obj"], 2]
+    terms += [["U", ["I", K[0], DT], ["I", K[1], DF]], ["U", ["I", K[1], DF], ["I", K[0], ["Dep", ["obj"], 1]]], ["I", K[1], ["Dep", K[1], 0]],
+              ["U", ["Dep", K[0], 2], K[2]], ["Dep", K[1], 0], ["U", ["I", K[2], DF], ["Dep", K[0], 0]]]
     N = 700 if tier == "quick" else 9000
     out = []
     CH = [0, 1, 2, n]
@@ -188,7 +193,7 @@ def e1_part(tier, seed):
     from xh import gen
 
     hs = [(f"c01_{v}", gen.entry_guard_module(v), dict(family="entry guards", variant=v))
-          for v in ("kwonly_literal", "kwonly_dependent", "positional_mix", "nested_combinators")]
+          for v in ("kwonly_literal", "kwonly_dependent", "positional_mix", "nested_combinators", "same_parameters_other_bound", "kwonly_only")]
     code = xhrun.main(PID, tier, seed, hs, bounds=dict(values="int unbounded, str len <= 2"), rule="see symx part", mod=None)
     with open(os.path.join(runner.EVID, f"{PID}.json")) as fh:
         cov = json.load(fh)["coverage"]
